@@ -188,6 +188,9 @@ fn classify_by_backtrace() -> (bool, Option<String>) {
                 return (false, Some(via));
             }
             if is_harness_path(rest) && !rest.contains("/monitor/src/") {
+                if std::env::var_os("MONITOR_DEBUG_BT").is_some() {
+                    eprintln!("--- panic classified as harness at frame `{}` {}\n{}", cur_sym, rest, bt);
+                }
                 return (true, None);
             }
         } else if let Some(idx) = l.find(": ") {
